@@ -893,6 +893,30 @@ def run(chk):
     ia, ib = {norm_idx(x) for x in sites[gd[0]]["idx"]}, {norm_idx(x) for x in sites[gs[0]]["idx"]}
     chk.instance(r_ca, "index", sample=dict(getData=sorted(ia), getSIDoubleData=sorted(ib)))
 
+    # ---- C02.fixedsys: conversions through a hard-coded unit system
+    r_fs = chk.rule("C02.fixedsys", "a conversion through a freshly constructed fixed unit system (UnitSystem::newMETRIC() / newFIELD() / newLAB() / newPVT_M()) is only ever to_si of a compile-time default (the keyword defaults of the JSON definitions are METRIC numbers): never from_si, and never applied to a value that comes from the deck, the schedule state or a parameter - those are in the deck's own unit system, which only the run's UnitSystem object knows", floor=8)
+    fsx = chk.facts(["opm/input/eclipse/Schedule/Well/WellKeywordHandlers.cpp", "opm/input/eclipse/Schedule/Network/Balance.cpp", "opm/output/eclipse/DoubHEAD.cpp",
+                     "opm/input/eclipse/Schedule/Group/GroupKeywordHandlers.cpp", "opm/input/eclipse/Schedule/KeywordHandlers.cpp"])
+    for f in fsx.fns:
+        if not f.get("body") or not f["file"].startswith(core.REPO + "/opm/") or f["file"].endswith("UnitSystem.cpp"):
+            continue
+        for n in walk(f["body"]):
+            if n.get("k") != "MCall" or n.get("m") not in ("to_si", "from_si") or not n.get("obj"):
+                continue
+            o = strip(n["obj"])
+            while o.get("k") in ("Temp", "Bind", "Ctor") and len(o.get("a") or o.get("c") or []) == 1:
+                o = strip((o.get("a") or o.get("c"))[0])
+            if o.get("k") != "Call" or not re.search(r"UnitSystem::new(METRIC|FIELD|LAB|PVT_M)$", o.get("fn") or ""):
+                continue
+            key = "%s@%d" % (f["q"], n["l"])
+            val = n["a"][1] if len(n.get("a") or []) > 1 else None
+            runtime = [show(x) for x in walk(val)] if val is None else [show(x) for x in walk(val) if (x.get("k") == "Ref" and x.get("d") in ("Var", "Parm")) or x.get("k") in ("This",) or (x.get("k") == "Mem" and x.get("n") != "defaultValue")]
+            chk.instance(r_fs, key, sample=dict(function=f["q"], call=show(n)[:160]))
+            if n["m"] != "to_si":
+                chk.violation(r_fs, key, "%s converts FROM SI through the hard-coded %s: the result is a number in that system's units, whatever the deck's unit system is (%s)" % (f["q"], (o.get("fn") or "").split("::")[-1], show(n)[:160]), f["file"], n["l"])
+            elif runtime:
+                chk.violation(r_fs, key, "%s converts the run-time value(s) %s through the hard-coded %s; only compile-time keyword defaults are known to be in that system" % (f["q"], runtime[:3], (o.get("fn") or "").split("::")[-1]), f["file"], n["l"])
+
     from verif import fallthrough
     fallthrough.run(chk, "C02", floor=12)
     from verif import argorder
